@@ -58,6 +58,8 @@ type sutOpts struct {
 	legacyCookie   bool
 	realJwks       bool     // fetch the JWKS over HTTP through provider.NewJwksProvider (incl. its post-fetch key mutator)
 	audiences      []string // additional trusted audiences
+	clientSecret   string   // client_secret authentication (through the real openidconfig.NewClientConfig) instead of private_key_jwt
+	locale         string
 	tweak          func(*config.Config)
 }
 
@@ -91,6 +93,14 @@ type replica struct {
 	rawSrc  router.Source
 	started time.Time
 }
+
+type anyConfig struct {
+	c openidconfig.Client
+	p openidconfig.Provider
+}
+
+func (a *anyConfig) Client() openidconfig.Client     { return a.c }
+func (a *anyConfig) Provider() openidconfig.Provider { return a.p }
 
 var sharedClient *mock.TestClientConfiguration
 
@@ -164,6 +174,7 @@ func (s *sut) makeCfg(client string) *config.Config {
 	cfg.Ingresses = append([]string{}, o.ingresses...)
 	cfg.OpenID.ACRValues = o.acr
 	cfg.OpenID.PostLogoutRedirectURI = ""
+	cfg.OpenID.UILocales = o.locale
 	cfg.Session.MaxLifetime = o.maxLifetime
 	cfg.Session.Inactivity = o.inactivity > 0
 	cfg.Session.InactivityTimeout = o.inactivity
@@ -221,8 +232,19 @@ func (s *sut) replicaMode(name, mode string) *replica {
 		cfg.OpenID.Audiences = s.o.audiences
 		ocfg.TestClient = mock.NewTestConfiguration(cfg).TestClient // trusted audiences are fixed at construction
 	}
+	var oc openidconfig.Config = &ocfg
+	if s.o.clientSecret != "" {
+		cfg.OpenID.ClientSecret = s.o.clientSecret
+		cfg.OpenID.ClientJWK = ""
+		cfg.OpenID.WellKnownURL = s.idp.srv.URL + "/.well-known/openid-configuration"
+		cl, err := openidconfig.NewClientConfig(cfg)
+		if err != nil {
+			panic(err)
+		}
+		oc = &anyConfig{cl, ocfg.TestProvider}
+	}
 	if s.o.realJwks {
-		p, err := provider.NewJwksProvider(context.Background(), &ocfg)
+		p, err := provider.NewJwksProvider(context.Background(), oc)
 		if err != nil {
 			panic(err)
 		}
@@ -236,7 +258,7 @@ func (s *sut) replicaMode(name, mode string) *replica {
 		}
 		rp.proxy, rp.rawSrc = p, p
 	default:
-		h, err := handler.NewStandalone(cfg, jw, &ocfg, s.crypter)
+		h, err := handler.NewStandalone(cfg, jw, oc, s.crypter)
 		if err != nil {
 			panic(err)
 		}
